@@ -24,7 +24,7 @@ LEVEL = "exploration"
 RULE = ("scenario = 1..3 concurrent clients (real send_initialize with a generated supported list, or a raw client) x requested version strata "
         "(each supported; supported +-1 day/month/year; any well-formed date 1925..2125; ill-formed strings; non-strings; absent) x network "
         "latencies; non-trivial = at least one requested version outside the server's supported list, or >= 2 handshakes interleaved")
-PROBES = ["requested_unsupported_wellformed", "requested_illformed", "requested_nonstring", "requested_absent", "handshakes_interleaved",
+PROBES = ["response_queued_while_other_handshake_handled", "requested_unsupported_wellformed", "requested_illformed", "requested_nonstring", "requested_absent", "handshakes_interleaved",
           "real_client_mismatch", "real_client_counter_proposal", "supported_echoed"]
 TIERS = {"quick": {"runs": 20000, "wall": 45.0}, "thorough": {"runs": 1500000, "wall": 560.0}}
 ASSUMPTIONS = ["messages cross the in-memory network serialised (model_dump_json(exclude_none)) and re-parsed (parse_message), as over a real transport"]
@@ -77,7 +77,7 @@ def generate(rng: random.Random, tier: str) -> dict:
                 c["absent"] = True
             c["second"] = rng.random() < 0.2  # a second handshake on the same connection
         clients.append(c)
-    return {"v": 1, "uuid_seed": rng.getrandbits(40), "server_delay": rng.choice([0, 0, 2, 10]), "clients": clients}
+    return {"v": 1, "uuid_seed": rng.getrandbits(40), "server_delay": rng.choice([0, 0, 2, 10]), "flush_delay": rng.choice([0, 0, 3, 25]), "clients": clients}
 
 
 def simplify(scn):
@@ -91,6 +91,8 @@ def simplify(scn):
             cc = copy.deepcopy(scn); cc["clients"][i]["info"] = None; yield cc
     if scn["server_delay"]:
         cc = copy.deepcopy(scn); cc["server_delay"] = 0; yield cc
+    if scn.get("flush_delay"):
+        cc = copy.deepcopy(scn); cc["flush_delay"] = 0; yield cc
 
 
 def execute(scn: dict) -> dict:
@@ -138,17 +140,23 @@ def execute(scn: dict) -> dict:
                     if is_init:
                         st["active"] -= 1
                     continue
+                rec = None
                 if is_init:
                     rec = {"client": i, "request": data, "response": None, "session_id": new_sid}
-                    if resp is not None:
-                        rec["response"] = json.loads(resp.model_dump_json(exclude_none=True))
                     st["answers"].append(rec)
                 if new_sid:
                     session = new_sid
                 if resp is not None:
+                    # the response object sits in an outbound queue for a while before it is serialised onto the wire;
+                    # what counts is what is written then (other handshakes may be handled in the meantime)
+                    if scn.get("flush_delay"):
+                        await anyio.sleep(ticks(scn["flush_delay"]))
                     if c["net_back"]:
                         await anyio.sleep(ticks(c["net_back"]))
-                    await s2c_send.send(wire(resp)[0])
+                    obj, as_json = wire(resp)
+                    if rec is not None:
+                        rec["response"] = as_json
+                    await s2c_send.send(obj)
                 if is_init:
                     st["active"] -= 1
 
@@ -208,6 +216,8 @@ def execute(scn: dict) -> dict:
     nontrivial = st["interleaved"]
     if st["interleaved"]:
         probe("handshakes_interleaved")
+    if scn.get("flush_delay") and len(st["answers"]) >= 2:
+        probe("response_queued_while_other_handshake_handled")
     for a in st["answers"]:
         req = a["request"]
         p = req.get("params") or {}
